@@ -708,6 +708,12 @@ val push_round :
   ((server * (n * outcome list) list) * ((n * str) * (lease * outcome))
   list) * bool
 
+val push_rounds :
+  nat -> server -> (n * outcome list) list -> (server * (n * outcome list)
+  list) * ((n * str) * (lease * outcome)) list
+
+val dedup_sorted : n list -> n list
+
 val sorted_registry : server -> (name * str) list
 
 val run_lines :
